@@ -9,7 +9,7 @@ Not decided: calendar correctness of chrono (trusted).
 import re
 
 from ..facts import render, strip, walk, fn_key, AnchorLost, alternatives, cond_str
-from ..common import rule_body, pattern_field_check, result_alternatives
+from ..common import variant_consistent, value_alternatives, canon_field_reads, resolve_variant_projections, rule_body, pattern_field_check, result_alternatives
 from .. import model
 from .C13 import printer_rows
 
@@ -58,7 +58,15 @@ def x1_pair(ctx):
         if ntype != 'types::NumberType::Raw{}':
             ctx.finding('X1', 'to_unixtime/number-type', 'the timestamp is tagged %s (grouping / rounding would hide digits)' % ntype, site=t.loc)
         for val, c2 in alternatives(t, strip(inner[2][0])[3] if strip(inner[2][0])[0] == 'cast' else inner[2][0], _conds=conds):
-            vt = render(val)
+            if not variant_consistent(val):
+                continue          # an arm of a merged enum value (a helper that hands back the case read) other than the one projected
+            inner_alts = [x_ for x_, _c in value_alternatives(t, val, c2)]
+            if len(inner_alts) == 1:
+                val = inner_alts[0]
+            elif len(inner_alts) > 1:
+                for x_ in inner_alts[1:]:
+                    pass
+            vt = render(canon_field_reads(resolve_variant_projections(t, val)))
             m = None
             # the stored UTC value of the operand: through the typed getter, read from the token itself, or from the item a
             # variable holds (the getters do exactly these two things)
@@ -75,7 +83,7 @@ def x1_pair(ctx):
                 m = 'date-time'
             elif m1 and m1.group('v'):
                 m = 'a variable holding a time or a date-time'
-            elif vt == '0':
+            elif vt in ('0', '0.0'):
                 m = 'none (0)'
             if m is None:
                 ctx.finding('X1', 'to_unixtime/value', "'.. as unix' computes %s; expected .timestamp() of the stored UTC value (midnight for a date)" % vt[:160], site=t.loc)
